@@ -1,8 +1,67 @@
 import TongoModel.Shard
+import TongoGen.Shards
+import TongoProofs.Lemmas.GoInt
 /-! Property C17 — account addresses and shard ids keep their meaning across all forms.
-Property theorems only (helper lemmas live in TongoProofs/Lemmas). -/
+Property theorems only (helper lemmas live in TongoProofs/Lemmas).
+
+Section 1 ties the hand model (TongoModel/Shard.lean, the one the compiled driver runs against the Go code on every
+check) to the definitions REGENERATED from the Go source by translator X4 (TongoGen/Shards.lean): a change of the Go
+integer code changes the regenerated file and breaks one of the `gen_*` equations. -/
 namespace Tongo.C17
-open Tongo.Shard
+open Tongo.Shard Tongo.GoInt
+
+/-! ## 1. regenerated definitions = hand model -/
+
+/-- tie: the regenerated ton.ParseShardID equals the hand model (error ↔ `none`) -/
+theorem gen_ParseShardID (m : BitVec 64) :
+    Gen.Shards.ParseShardID m = (parseShardID m).map (fun s => (s.pfx, s.mask)) := by
+  simp only [Gen.Shards.ParseShardID, parseShardID, trailingZeros64_toNat, trailingZeros64_add_one_toNat]
+  by_cases h : m = 0
+  · simp [h]
+  · have h' : (m == 0#64) = false := by simpa using h
+    simp only [h', h, if_false, Bool.false_eq_true, Option.map, ctz64]
+    rfl
+
+/-- tie: the regenerated ShardID.Encode equals the hand model (`none` = panic on a negative shift count, mask with bit 0 set) -/
+theorem gen_Encode (p m : BitVec 64) : Gen.Shards.Encode p m = encode ⟨p, m⟩ := by
+  unfold Gen.Shards.Encode encode
+  have hle : ctz m ≤ 64 := ctz_le m
+  by_cases h : ctz m = 0
+  · simp [ctz64, h, trailingZeros64, BitVec.slt]
+  · have : ¬ (BitVec.slt (trailingZeros64 m - 1#64) 0#64) := by
+      simp [trailingZeros64, BitVec.slt, BitVec.toInt, BitVec.toNat_sub]; omega
+    have h2 : (trailingZeros64 m - 1#64).toNat = ctz m - 1 := by
+      simp [trailingZeros64, BitVec.toNat_sub]; omega
+    simp [ctz64, h, this, h2]
+
+/-- tie: the regenerated ShardID.MatchAccountID (on the big-endian first 8 address bytes) equals the hand model -/
+theorem gen_MatchAccountID (p m a : BitVec 64) : Gen.Shards.MatchAccountID p m a = matchPrefix ⟨p, m⟩ a := rfl
+
+/-- tie: the regenerated ShardID.MatchBlockID equals the hand model -/
+theorem gen_MatchBlockID (p m b : BitVec 64) : Gen.Shards.MatchBlockID p m b = matchBlock ⟨p, m⟩ b := by
+  unfold Gen.Shards.MatchBlockID matchBlock
+  rw [gen_ParseShardID]
+  cases parseShardID b with
+  | none => rfl
+  | some sub =>
+    have h1 := ctz_le m; have h2 := ctz_le sub.mask
+    have : BitVec.slt (trailingZeros64 m) (trailingZeros64 sub.mask) = decide (ctz m < ctz sub.mask) := by
+      simp [trailingZeros64, BitVec.slt, BitVec.toInt]; omega
+    simp only [Option.map, this, ctz64, decide_eq_true_eq]
+    split <;> simp [*]
+
+/-- tie: the regenerated ton.shardChild equals the hand model -/
+theorem gen_shardChild (s : BitVec 64) (l : Bool) : Gen.Shards.shardChild s l = shardChild s l := by
+  cases l <;> rfl
+/-- tie: the regenerated ton.shardParent equals the hand model -/
+theorem gen_shardParent (s : BitVec 64) : Gen.Shards.shardParent s = shardParent s := rfl
+/-- tie: the regenerated ton.convertShardIdent equals the hand model (8-bit unsigned shift count) -/
+theorem gen_convertShardIdent (b : BitVec 8) (wc : BitVec 32) (p : BitVec 64) :
+    Gen.Shards.convertShardIdent b wc p = (wc, convertShardIdent p b) := rfl
+/-- tie: the regenerated anycast rewrite arithmetic of ton.AccountIDFromTlb equals the hand model -/
+theorem gen_anycastRewrite (a d r : BitVec 32) : Gen.Shards.anycastRewrite a d r = anycastRewrite a d r := rfl
+
+/-! ## 2. shard algebra -/
 
 /-- the two children of a shard are placed symmetrically around it (64-bit wrap-around arithmetic) -/
 theorem children_symmetric (s : BitVec 64) : shardChild s true + shardChild s false = s + s := by
